@@ -63,29 +63,45 @@ static const uint16_t NOCC[] = {1, 0, 2, 3, 5, 17, 60, 200, 700};
 struct LongPlan {
     size_t target = 17; int filler = 0, kind = 0; size_t seplen = 8; unsigned nocc = 1;
     bool at_start = false, at_end = false, variants = false;
+    // block alignment: the LAST planted occurrence starts end_dist bytes before the END of the text (a multiple of a block size
+    // plus 0..|sep|, so that it straddles / touches a block edge counted from the end), the FIRST one at offset start_dist
+    bool align_end = false, align_start = false; size_t end_dist = 0, start_dist = 0;
     uint64_t seed = 0;
 };
-struct Long { std::string s, sep; size_t planted = 0, near_misses = 0; };
+struct Long { std::string s, sep; size_t planted = 0, near_misses = 0; bool aligned_end = false, aligned_start = false; };
+
+static const uint16_t BLOCKS[] = {4096, 16384, 16386, 256, 1024, 64, 8192, 32, 4098};
 
 // structural choices; the 64-bit content seed is read last
 inline LongPlan plan_long(verif::Reader &r) {
     LongPlan p;
     static const uint16_t blocks[] = {256, 512, 1024, 2048, 4096, 8192, 16384};
-    switch (r.range(0, 7)) {
-        case 0: case 1: case 2: case 3: p.target = (size_t)r.range(17, 300); break;
-        case 4: case 5: p.target = (size_t)r.range(300, 1500); break;
-        case 6: p.target = (size_t)r.pick(blocks) + (size_t)r.range(0, 2) - 1; break;     // block size -1 / exact / +1
-        default: p.target = (size_t)r.range(1500, 16500); break;
+    static const uint16_t huge[] = {32768, 49152, 32772, 20480, 40960, 49158};
+    switch (r.range(0, 15)) {
+        case 0: case 1: case 2: case 3: case 4: case 5: case 6: case 7: p.target = (size_t)r.range(17, 300); break;
+        case 8: case 9: case 10: p.target = (size_t)r.range(300, 1500); break;
+        case 11: case 12: p.target = (size_t)r.pick(blocks) + (size_t)r.range(0, 2) - 1; break;     // block size -1 / exact / +1
+        case 13: case 14: p.target = (size_t)r.range(1500, 16500); break;
+        default: { unsigned v = (unsigned)r.range(0, 11); p.target = v < 6 ? (size_t)huge[v] + (size_t)r.range(0, 2) - 1 : (size_t)r.range(16500, 49200); break; }   // up to ~48 KB
     }
     p.filler = (int)r.range(0, F_COUNT - 1);
     p.kind = (int)r.range(0, P_COUNT - 1);
     { unsigned v = (unsigned)r.range(0, 39); p.seplen = v < sizeof SEPLEN / sizeof SEPLEN[0] ? SEPLEN[v] : (size_t)(8 + (v * 37u + (unsigned)r.u8()) % 293u); }
     p.nocc = r.pick(NOCC);
-    { unsigned f = r.u8(); p.at_start = f & 1; p.at_end = (f & 2) != 0; p.variants = (f & 4) != 0; }
+    unsigned f = r.u8(); p.at_start = f & 1; p.at_end = (f & 2) != 0; p.variants = (f & 4) != 0;
+    {
+        unsigned ab = r.u8(); size_t j = (size_t)r.range(0, p.seplen + 2);          // 0 -> one byte past the edge ... |sep|+2 -> one byte clear of it
+        const size_t B = BLOCKS[ab % (sizeof BLOCKS / sizeof BLOCKS[0])], mult = 1 + (ab / 9) % 3;
+        if ((f & 0x18) && B * mult + p.seplen + 2 <= p.target) {
+            if (f & 8) { p.align_end = true; p.end_dist = B * mult + j - 1; }       // last occurrence starts end_dist bytes before the end
+            if (f & 16) { p.align_start = true; p.start_dist = B * mult + 1 >= j ? B * mult + 1 - j : 0; }   // first occurrence starts at start_dist
+        }
+    }
     p.seed = r.bits64();
     // keep the quadratic worst case (degenerate text x long separator) modest: the oracle is a naive scan
     if (p.filler == F_AB && p.seplen >= 32 && p.target > 3000) p.target = 3000;
     if (p.seed == 0 && p.target > 1200) p.target = 1200;                    // seed 0 expands to "aaaa...": every alignment matches
+    if (p.end_dist + 1 > p.target || p.start_dist + p.seplen > p.target) p.align_end = p.align_start = false;
     return p;
 }
 
@@ -152,7 +168,26 @@ inline Long build_long(const LongPlan &p) {
         size_t given = 0;
         for (size_t i = 0; i < gaps.size(); i++) { gaps[i] = (size_t)((unsigned long long)budget * w[i] / sum); given += gaps[i]; }
         gaps[gaps.size() / 2] += budget - given;
-        if (nocc) {
+        // block alignment: the text after the last site / before the first site gets an exact length; the other gaps share the rest
+        if (nocc && (p.align_end || p.align_start)) {
+            const size_t want_tail = p.align_end && p.end_dist >= sites[nocc - 1].size() ? p.end_dist - sites[nocc - 1].size() : 0;
+            const size_t want_head = p.align_start ? p.start_dist : 0;
+            if ((!p.align_end || p.end_dist >= sites[nocc - 1].size()) && want_tail + want_head <= budget && (nocc > 1 || !(p.align_end && p.align_start))) {
+                size_t inner = budget - want_tail - want_head, fixed_ = 0;
+                // rescale the gaps that stay free
+                size_t free_sum = 0;
+                for (size_t i = 0; i < gaps.size(); i++) if (!((i == 0 && p.align_start) || (i + 1 == gaps.size() && p.align_end))) free_sum += gaps[i];
+                size_t last_free = gaps.size();
+                for (size_t i = 0; i < gaps.size(); i++) {
+                    if (i == 0 && p.align_start) { gaps[i] = want_head; continue; }
+                    if (i + 1 == gaps.size() && p.align_end) { gaps[i] = want_tail; continue; }
+                    gaps[i] = free_sum ? (size_t)((unsigned long long)inner * gaps[i] / free_sum) : 0; fixed_ += gaps[i]; last_free = i;
+                }
+                if (last_free < gaps.size()) { gaps[last_free] += inner - fixed_; out.aligned_end = p.align_end; out.aligned_start = p.align_start; }
+                else if (inner == 0) { out.aligned_end = p.align_end; out.aligned_start = p.align_start; }
+            }
+        }
+        else if (nocc) {
             if (p.at_start) { gaps[gaps.size() / 2] += gaps[0]; gaps[0] = 0; }
             if (p.at_end) { size_t last = gaps.size() - 1, mid = (gaps.size() - 1) / 2; if (mid != last) { gaps[mid] += gaps[last]; gaps[last] = 0; } }
         }
